@@ -9,7 +9,7 @@ PROPS = {
         "oracle_engine": {"framing": "stream", "codec": "codec"},
         "trusted": [SYMBOLIC_CRYPTO],
         "technique": "Lean 4 theorems (round-trip by induction over accepted frame chains; send-accepts-implies-receive-accepts by case analysis) + correspondence on real streams over boundary sizes and all short compositions",
-        "level_text": "incremental_equals_complete (StartMessageRead + ReadMessageBytes(n) until end-of-message + EndMessageRead hands over exactly the message ReceiveCompleteMessage would, for every chunk size, consuming the same frames and leaving the stream clean) with readLoop_all; frame_roundtrip (bytes), send_accept_recv_accept (every frame a sender accepts passes the receiver's checks, both modes, first and later frames), messages_roundtrip_plain / _encrypted (ReceiveCompleteMessage loop returns exactly the sent messages for every accepted send history), buffered_roundtrip_plain / _encrypted (ANY sequence of messages each assembled by StartMessage, WriteMessage calls of any sizes with threshold flushes, EndMessage, is delivered as exactly one message per EndMessage = the concatenation of its writes) and buffered_incremental_plain (the same through the incremental API), typed-layer chunking theorems, typed_strbytes_any_length / typed_bytes_any_length (PutStringBytes and PutBytes of any length, including the >= 1 MiB branches, put exactly the reference bytes on the wire) and typed_rest_any_length (GetRemainingBytes returns exactly the unconsumed bytes of the message in any cut into frames; a truncated wire is an error); kernel-checked over the model. Tied to the code by the framing and codec engines on real streams (sizes around 4 KiB / 16 KiB / 1 MiB ± GCM overhead; every composition of short messages; one message of 1-3 MiB assembled from many partial sends / buffered writes / by the typed layer with position-dependent content; incremental, complete and typed receive APIs; large PutBytes/PutString/PutStringBytes followed by another value, GetRemainingBytes over several frames).",
+        "level_text": "incremental_equals_complete (StartMessageRead + ReadMessageBytes(n) until end-of-message + EndMessageRead hands over exactly the message ReceiveCompleteMessage would, for every chunk size, consuming the same frames and leaving the stream clean) with readLoop_all; frame_roundtrip (bytes), send_accept_recv_accept (every frame a sender accepts passes the receiver's checks, both modes, first and later frames), messages_roundtrip_plain / _encrypted (ReceiveCompleteMessage loop returns exactly the sent messages for every accepted send history), buffered_roundtrip_plain / _encrypted (ANY sequence of messages each assembled by StartMessage, WriteMessage calls of any sizes with threshold flushes, EndMessage, is delivered as exactly one message per EndMessage = the concatenation of its writes) and buffered_incremental_plain (the same through the incremental API), typed-layer chunking theorems, typed_strbytes_any_length / typed_bytes_any_length (PutStringBytes and PutBytes of any length, including the >= 1 MiB branches, put exactly the reference bytes on the wire) and typed_rest_any_length (GetRemainingBytes returns exactly the unconsumed bytes of the message in any cut into frames; a truncated wire is an error); kernel-checked over the model. Tied to the code by the framing and codec engines on real streams (sizes around 4 KiB / 16 KiB / 1 MiB ± GCM overhead; every composition of short messages; one message of 1-3 MiB assembled from many partial sends / buffered writes / by the typed layer with position-dependent content; incremental, complete and typed receive APIs; large PutBytes/PutString/PutStringBytes followed by another value, GetRemainingBytes over several frames). typed_values_fit + typed_any_value_accepted (EVERY frame the typed layer emits for any list of values of any length - PutBytes, PutString, PutStringBytes chunking included - fits the frame bound and is accepted by the stream sender and the receiver's header check), typed_strbytes_any_length_i32 + strbytes_prefix_wraps (the encrypted string form carries an int32 length: the honest bound is 2^31; above it the prefix wrapped - found on the real code, fixed 204bb4c: the sender now refuses).",
         "level_note": "TCP delivery reliable and in order; symbolic AEAD; model hand-written, validated by correspondence; limits regenerated from source.",
         "assumptions": ["net.Conn delivers bytes reliably and in order"],
     },
@@ -20,7 +20,7 @@ PROPS = {
         "oracle_engine": {"hsadv": "hs", "token": "token", "resume": "sc", "clientcache": "sc"},
         "trusted": ["authentication sub-protocols are oracles (method m ran with this peer and succeeded / failed); ECDH/HKDF symbolic (symmetric free symbol)"],
         "technique": "Lean 4 theorems over client/server handshake machines with a universally quantified peer script + correspondence against scripted adversarial peers speaking raw CEDAR to the real ClientHandshake/ServerHandshake",
-        "level_text": "client_resume_required_auth / client_explicit_required_auth / server_resume_required_auth (an endpoint whose policy marks authentication REQUIRED resumes only a session that was established WITH authentication), client_required_auth, client_required_enc, client_reported_enc_is_real, client_reported_auth_is_real, client_only_offered_methods_run, server_required_auth, server_required_enc, server_reported_is_real, decided_enc_is_keyed: for every local policy and EVERY peer (all field values, all bitmask replies, any key material, any post-auth ad) — kernel-checked over the model. Tied to the code by the hsadv engine: both roles x 4x4 policies (+integrity) x method shapes x the property's deviation catalogue + random peers; the scripted peer records which exchanges really completed and the harness reads the stream's real encryption state. Engines also send a canary after every successful handshake and re-open every protected frame with an independent codec under the reported key (all later traffic protected), read which method completed from a wire tap (reported method with two usable methods), and compare the reported Encryption with the stream state on both ends, resumed handshakes included.",
+        "level_text": "client_resume_required_auth / client_explicit_required_auth / server_resume_required_auth (an endpoint whose policy marks authentication REQUIRED resumes only a session that was established WITH authentication), client_required_auth, client_required_enc, client_reported_enc_is_real, client_reported_auth_is_real, client_only_offered_methods_run, server_required_auth, server_required_enc, server_reported_is_real, decided_enc_is_keyed: for every local policy and EVERY peer (all field values, all bitmask replies, any key material, any post-auth ad) — kernel-checked over the model. Tied to the code by the hsadv engine: both roles x 4x4 policies (+integrity) x method shapes x the property's deviation catalogue + random peers; the scripted peer records which exchanges really completed and the harness reads the stream's real encryption state. Engines also send a canary after every successful handshake and re-open every protected frame with an independent codec under the reported key (all later traffic protected), read which method completed from a wire tap (reported method with two usable methods), and compare the reported Encryption with the stream state on both ends, resumed handshakes included. keyed_traffic_protected + client_/server_required_traffic_protected + reported_enc_traffic_protected: the handshake outcome's key IS what the stream is keyed with, and for any later op history without an explicit crypto-off every emitted frame is a seal under that key (bridge from the handshake model to the Stream model).",
         "level_note": "Resumed handshakes: that REQUIRED authentication is honoured on resumption is proved here over the session-cache model and exercised by the resume and clientcache engines (which therefore also run under this check); key possession and revival are C06. Sub-protocol soundness (did a 'successful' method deserve to succeed) is C11/C18; because C03's theorems assume it, the token engine (C11) also runs under this check and its violations count here. Only CLAIMTOBE/PASSWORD/NONE/TOKEN(no token)/unknown names are exercised on the wire; the theorems cover all methods via the oracle abstraction.",
         "assumptions": ["an authentication sub-protocol reports success only if it completed (C11, C18)"],
     },
@@ -30,7 +30,7 @@ PROPS = {
         "oracle_engine": {"relay": "stream"},
         "trusted": [SYMBOLIC_CRYPTO],
         "technique": "Lean 4 theorems over the stream model's digest tracking and first-frame AAD (free hash constructor) + correspondence with in-transit edits of cleartext frames at the stream level and a byte-editing relay between two real handshaking endpoints",
-        "level_text": "transcript_determines_frames (the bytes fed to a digest determine the SEQUENCE of frames - number, flags, lengths, payloads - so splits, merges, inserted empty frames and rewritten end flags change the transcript), sent_frames_are_fed / received_frames_are_fed (every cleartext frame before key installation, empty ones included, is hashed header+payload), transcript_binding (accepting a sender's first protected frame forces the receiver's (received, sent) digests to equal the sender's (sent, received)), same_digest_same_bytes, tamper_kills_first_frame: kernel-checked. Tied to the code by the relay engine: (1) stream level, model-compared: cleartext frames edited in transit (bit flips, flag flips, empty-frame insertion, removal, splitting, appended bytes) then keys installed and a protected message each way; (2) whole handshakes (no authentication, CLAIMTOBE, resumed) through a relay editing every frame of the transcript (byte offsets x substitutes, insertion, removal, splitting). accept_means_same_frames (if the receiver accepts the first protected frame, the lists of cleartext frames the two ends saw in that direction are EQUAL - composition of transcript_binding, *_frames_are_fed and transcript_determines_frames; helpers sentIs_step, recvdIs_step, setKey_keeps_digests, digestOf_inj). The relay engine also runs TOKEN and FS handshakes, checks the resumed shape resumed, and merges adjacent cleartext frames.",
+        "level_text": "transcript_determines_frames (the bytes fed to a digest determine the SEQUENCE of frames - number, flags, lengths, payloads - so splits, merges, inserted empty frames and rewritten end flags change the transcript), sent_frames_are_fed / received_frames_are_fed (every cleartext frame before key installation, empty ones included, is hashed header+payload), transcript_binding (accepting a sender's first protected frame forces the receiver's (received, sent) digests to equal the sender's (sent, received)), same_digest_same_bytes, tamper_kills_first_frame: kernel-checked. Tied to the code by the relay engine: (1) stream level, model-compared: cleartext frames edited in transit (bit flips, flag flips, empty-frame insertion, removal, splitting, appended bytes) then keys installed and a protected message each way; (2) whole handshakes (no authentication, CLAIMTOBE, resumed) through a relay editing every frame of the transcript (byte offsets x substitutes, insertion, removal, splitting). accept_means_same_frames (if the receiver accepts the first protected frame, the lists of cleartext frames the two ends saw in that direction are EQUAL - composition of transcript_binding, *_frames_are_fed and transcript_determines_frames; helpers sentIs_step, recvdIs_step, setKey_keeps_digests, digestOf_inj). The relay engine also runs TOKEN and FS handshakes, checks the resumed shape resumed, and merges adjacent cleartext frames. accept_means_same_frames_adv (+ recvFrame variant, tamper_kills_first_frame_adv): the hypothesis that the accepted frame is the sender's first seal is DERIVED for any frame of the C02 adversary's closure.",
         "level_note": "Downgrade to a plaintext session is outside C04's hypothesis (C03/C10). Plain ReceiveFrame (GetSecret/GetFile) does not hash a zero-length frame: declared exception, fails closed. TOKEN-authenticated shapes are exercised by the C11 engine, not the relay.",
         "assumptions": ["SHA-256 collision-free (free constructor)"],
     },
@@ -41,7 +41,7 @@ PROPS = {
         "oracle_engine": {"dispatch": "dispatch", "hsadv": "hs"},
         "trusted": ["handler bodies are opaque (they only decide keep-alive)", "session flags = handshake outcome; their truth is C03/C06"],
         "technique": "Lean 4 theorems (induction over the follow-on command list with the per-iteration re-check as invariant) composed with the handshake model + correspondence on a real server.Server with scripted command sequences, four kinds of client, reconnect-and-resume",
-        "level_text": "levelOK_is_the_code (the model's level test EQUALS the definition tools/gen translates from server.commandLevelSatisfied on every run, for all level strings), dispatch_sound (every invoked authenticated handler: registered, not raw, session meets the command's CURRENT level, identity currently authorized — all follow-on sequences, all keep-alive behaviours), levelOK_meaning, raw_path_only_raw, auth_path_never_raw, refuse_closes, raw_refuse_closes, valid_commands_sound (with the authorization conjunct), valid_commands_dispatchable, no_level_never_authorized: kernel-checked. The server-side close is observed before the harness closes anything; the post-auth ValidCommands advertisement is observed, judged and compared; commands without permission levels / without own policy under a non-OPTIONAL base configuration; follow-on commands on resumed connections. Tied to the code by the dispatch engine: real server with per-command policies/authorization levels and 3 authorizer tables, every command sequence of length <=3 (sampled above 2) over authenticated/raw/unknown commands with random keep-alive patterns, 4 client kinds, reconnect-and-resume with another command; invoked handlers (with the stream's real encryption state) compared with the model composed with honestRun.",
+        "level_text": "levelOK_is_the_code (the model's level test EQUALS the definition tools/gen translates from server.commandLevelSatisfied on every run, for all level strings), dispatch_sound (every invoked authenticated handler: registered, not raw, session meets the command's CURRENT level, identity currently authorized — all follow-on sequences, all keep-alive behaviours), levelOK_meaning, raw_path_only_raw, auth_path_never_raw, refuse_closes, raw_refuse_closes, valid_commands_sound (with the authorization conjunct), valid_commands_dispatchable, no_level_never_authorized: kernel-checked. The server-side close is observed before the harness closes anything; the post-auth ValidCommands advertisement is observed, judged and compared; commands without permission levels / without own policy under a non-OPTIONAL base configuration; follow-on commands on resumed connections. Tied to the code by the dispatch engine: real server with per-command policies/authorization levels and 3 authorizer tables, every command sequence of length <=3 (sampled above 2) over authenticated/raw/unknown commands with random keep-alive patterns, 4 client kinds, reconnect-and-resume with another command; invoked handlers (with the stream's real encryption state) compared with the model composed with honestRun. dispatch_sound_real: the session record is the outcome of serverFull / serverResume - auth REQUIRED => one of the server's own methods really completed (or the resumed entry was established authenticated), enc/integrity REQUIRED => the stream holds the key; serveAuthH / dispatch_sound_H / dispatch_ends / refuse_closes_H: the three-outcome handler model (close, keep-alive, KeepOpen) - a refusal or an unknown command always closes.",
         "level_note": "Handler bodies are opaque; the per-command policy function and authorizer are parameters (they may change between connections). The theorems assume the session flags are true (C03); the hsadv engine (C03) therefore also runs under this check and its violations count here.",
         "assumptions": ["reported session flags equal the real state (C03, C06)"],
     },
@@ -51,7 +51,7 @@ PROPS = {
         "oracle_engine": {"resume": "sc", "clientcache": "sc"},
         "trusted": [SYMBOLIC_CRYPTO, "time is a parameter of the model (virtual time in the engine: entries re-stored with a past expiry)"],
         "technique": "Lean 4 theorems over the cache-as-finite-map and the server resumption machine (+ replay rejection from the symbolic AAD binding) + correspondence on a real server cache with scripted requests and byte-for-byte replays",
-        "level_text": "required_auth_not_resumed, resume_needs_key (a successful resumption found a live, keyed entry; the stream is switched to that key; identity/authentication are the entry's), dead_not_resumed, invalidated_is_dead, never_stored_is_dead, other_ops_do_not_revive, expired_lookup_removes, client_explicit_needs_key (a client handshake naming a cached session by id resumes only a keyed AES-GCM entry — did not hold of the code as found, F-C06-client-explicit-keyless), replay_rejected + digests_differ (a frame recorded on another connection does not authenticate once request/reply carry fresh values): kernel-checked. Tied to the code by the resume engine: histories over establish/expire/renew/invalidate/gc with scripted requests (right/wrong/no key, unknown id, one character off, with/without reply, other address) and replays of both directions of a recorded resumed connection (whole/truncated).",
+        "level_text": "required_auth_not_resumed, resume_needs_key (a successful resumption found a live, keyed entry; the stream is switched to that key; identity/authentication are the entry's), dead_not_resumed, invalidated_is_dead, never_stored_is_dead, other_ops_do_not_revive, expired_lookup_removes, client_explicit_needs_key (a client handshake naming a cached session by id resumes only a keyed AES-GCM entry — did not hold of the code as found, F-C06-client-explicit-keyless), replay_rejected + digests_differ (a frame recorded on another connection does not authenticate once request/reply carry fresh values): kernel-checked. Tied to the code by the resume engine: histories over establish/expire/renew/invalidate/gc with scripted requests (right/wrong/no key, unknown id, one character off, with/without reply, other address) and replays of both directions of a recorded resumed connection (whole/truncated). resumed_connection_protected + resumed_keyless_requester_locked_out (wire level: after a successful resumption with key k every frame any receive API accepts is a seal under k and everything sent is sealed under k, for any later op history; a party without k gets nothing accepted and opens nothing), resumed_replay_prefix, dead_stays_dead + invalidate_wins_history + expired_stays_dead_history (inductive over ALL op histories on the cache model: a session invalidated or expired and not stored again is never resumed), reachable_wf.",
         "level_note": "Guessability of session identifiers is noted, not proved. Replay protection holds for peers that send the fresh ResumeNonce (cedar both sides after the fix); a legacy peer that requests no reply gets none, so the server contributes no fresh value and the recorded client->server bytes of such a connection re-authenticate on a fresh server connection while the session lives: driven by the engine (scripted key-holding requester with ResumeResponse=false, its byte stream replayed) and recorded as known finding F-C06-noreply-replay (key C06:replay-c2s-noreply); proved in the model as noreply_replay_fails (witness) with noreply_digests_repeat (the freshness hypothesis of replay_rejected is what fails) next to reply_replay_rejected (the part that holds).",
         "assumptions": ["a receive error is terminal"],
     },
@@ -111,7 +111,7 @@ PROPS = {
         "oracle_engine": {"tamper": "stream"},
         "trusted": [SYMBOLIC_CRYPTO],
         "technique": "Lean 4 theorem (invariant + induction over adversarial wire, symbolic AEAD) + correspondence/tamper fault enumeration on real streams",
-        "level_text": "recv_prefix / recv_prefix_midstream: for every send history in both directions and every Dolev-Yao rewriting of the wire (own bytes, the sender's seals replayed/re-headed, the RECEIVER's own seals reflected), ReceiveCompleteMessage delivers a prefix of the sent messages, under one stated session hypothesis (the two fresh IVs differ in their last 12 bytes: two independent random draws); a reflected first frame announces the receiver's own IV and is refused (reflection_rejected is the concrete case that failed before the fix) (model theorem, kernel-checked); recv_prefix_incremental / _midstream: the same prefix guarantee for the incremental API (StartMessageRead -> readNextFrame, ReadMessageBytes(n) until end-of-message for every n, EndMessageRead): a wire that ends inside a multi-frame message is an error, never a truncated message; recv_prefix_frames: plain ReceiveFrame (GetSecret/GetFile) hands over only a prefix of the frame payloads sent; no_bypass / no_bypass_recvFrame: no frame is accepted without AES-GCM open. Model tied to the code by the tamper engine (single-fault catalogue incl. end flags 0..10 + multi-faults on real keyed streams, every fault presented to ReceiveCompleteMessage, Message.GetRemainingBytes, the incremental API, ReceiveFrame and GetSecret, transcripts of secrets with encryption switched off around them; compared with the model).",
+        "level_text": "recv_prefix / recv_prefix_midstream: for every send history in both directions and every Dolev-Yao rewriting of the wire (own bytes, the sender's seals replayed/re-headed, the RECEIVER's own seals reflected), ReceiveCompleteMessage delivers a prefix of the sent messages, under one stated session hypothesis (the two fresh IVs differ in their last 12 bytes: two independent random draws); a reflected first frame announces the receiver's own IV and is refused (reflection_rejected is the concrete case that failed before the fix) (model theorem, kernel-checked); recv_prefix_incremental / _midstream: the same prefix guarantee for the incremental API (StartMessageRead -> readNextFrame, ReadMessageBytes(n) until end-of-message for every n, EndMessageRead): a wire that ends inside a multi-frame message is an error, never a truncated message; recv_prefix_frames: plain ReceiveFrame (GetSecret/GetFile) hands over only a prefix of the frame payloads sent; no_bypass / no_bypass_recvFrame: no frame is accepted without AES-GCM open. Model tied to the code by the tamper engine (single-fault catalogue incl. end flags 0..10 + multi-faults on real keyed streams, every fault presented to ReceiveCompleteMessage, Message.GetRemainingBytes, the incremental API, ReceiveFrame and GetSecret, transcripts of secrets with encryption switched off around them; compared with the model). recv_prefix_typed (+ _midstream): the same prefix theorem for the typed layer's receive path (GetRemainingBytes / ensureData, end flags 2..10); recv_prefix_resumed (+ typed / incremental / frames variants): the adversary may additionally inject every frame recorded on EARLIER connections of the same session (same key) - explicit hypotheses: the old connections' IV tails differ from this one's and their first-frame digests differ (the reply-mode freshness of C06).",
         "level_note": "Symbolic AEAD (free constructors); receive errors terminal; model hand-written and validated by correspondence; constants regenerated from source.",
         "assumptions": ["a receive error is terminal (the application stops reading)", "crypto/aes, crypto/cipher GCM are correct"],
     },
